@@ -22,15 +22,24 @@ RULE = ("Coq: Properties/C34.v over Imports.v (loader with paths_seen, namespace
 META = {
     "technique": "Coq proof over a model of the import loader and of name resolution + differential execution of the "
                  "extracted model vs `garden check` / `garden run` on generated multi-file projects",
-    "level_text": ("Coq theorems load_terminates (any finite file graph incl. cycles, fuel = number of files + 1), "
-                   "qualified_visible_iff_public, unqualified_imports_exactly_public (for acyclic reachability; the "
-                   "cyclic case is refuted on the model of the unfixed loader and proved for the fixed one), "
-                   "check_and_run_agree, and types_visible_refuted (a private struct / enum / method of an imported "
-                   "file IS usable: types live in one global table)."),
-    "level_note": ("Partial: the theorem covers functions and enum-variant values in namespaces; types and methods "
-                   "are refuted (known finding). Trusted: Coq kernel, the hand-written correspondence of Imports.v "
-                   "with load_toplevel_items_/eval_namespace_access/infer_namespace_access (tied by differential "
-                   "execution only), extraction + OCaml glue, the CLI as oracle."),
+    "level_text": ("Coq theorems, GENERAL (any number of files, any import graph incl. cycles, self-imports, repeated and "
+                   "missing imports, with and without `as`; loader shape regenerated from the current source; hypotheses: "
+                   "the root file exists, no file marks one name both public and private): exported_iff_public (after "
+                   "load_root the exported_syms of every loaded file are exactly its public marks: public funs and variants "
+                   "of public enums), qualified_visible_iff_public (`a::x` resolves iff a names the namespace of a file that "
+                   "marks x public), unqualified_imports_exactly_public (an unqualified name resolves in a loaded file iff it "
+                   "is a prelude name, declared by the file, an import alias of the file, or public in a file imported "
+                   "without `as`), cyclic_imports_complete_general + unqualified_import_sound (completeness in every graph, "
+                   "no re-export, nothing private), namespaces_are_loaded_files, load_terminates (fuel = files + 1), "
+                   "check_and_run_agree (all environments). Refuted: types_visible_refuted (private struct / enum / method "
+                   "of an imported file IS usable: one global type table)."),
+    "level_note": ("Proved by an invariant of the loader carried through the nested recursion of load_items (induction on "
+                   "fuel and item list), not by computation on instances; the older `_partial` / concrete theorems are kept "
+                   "as examples. Not in the model: types, methods (refuted, known finding), type hints and patterns "
+                   "(searched on the binary only), which alias names a file binds (the theorems speak about the value an "
+                   "alias is bound to). Trusted: Coq kernel, tools/gen_imports.py, the hand-written correspondence of "
+                   "Imports.v with load_toplevel_items_/eval_namespace_access/infer_namespace_access (tied by differential "
+                   "execution on ~1000 probes per run), extraction + OCaml glue, the CLI as oracle."),
     "design_ref": "DESIGN.md §5 C34, §8 item 21",
 }
 
